@@ -16,7 +16,10 @@ The permission subsystem of pony is undocumented, so this model encodes only wha
                    (the two readings of "minus ... exclusions on the reverse side"); the in-between is not asserted;
 * can_view = view or edit; can_edit / can_create / can_delete = the permission of that name;
 * groups(user)  = {'anybody'} + everything the applicable group getters return (None: nothing, str: one name);
-  roles(user,o) = {'self'} if user is o, + getters; labels(o) = getters; user None: groups {'anybody'}, no roles.
+  roles(user,o) = {'self'} if user is o, + getters; labels(o) = getters; user None: groups {'anybody'}, no roles;
+* the providers are consulted afresh in every db_session: however the previous db_session ended (normally, by an
+  exception in its body, by a failing flush, by a commit that fails on leaving it, after an explicit rollback), a new
+  db_session answers for the groups / roles / labels the getters return NOW (cfg['epochs'] + effective()).
 """
 
 PERMS = ['view', 'edit', 'create', 'delete']
@@ -248,6 +251,28 @@ class Ref(object):
         return seen
 
 
+END_MODES = ['normal', 'commit_error', 'body_error', 'flush_error', 'rollback_call']
+
+
+def effective(cfg, epoch):
+    """the configuration in force in epoch `epoch` (0 = as declared): same rules and objects; the users' group tables,
+    the general role table and the general label table are those of cfg['epochs'][epoch - 1]"""
+    if not epoch:
+        return cfg
+    ep = cfg['epochs'][epoch - 1]
+    out = dict(cfg)
+    users = []
+    for ui, u in enumerate(cfg['users']):
+        u = dict(u)
+        if ui < len(ep['g']):
+            u['g1'], u['g2'] = ep['g'][ui]
+        users.append(u)
+    out['users'] = users
+    out['roles1'] = ep['roles1']
+    out['labels1'] = ep['labels1']
+    return out
+
+
 def object_keys(cfg):
     return (['P:%d' % (i + 1) for i in range(cfg['people'])]
             + ['D:%d' % (i + 1) for i in range(len(cfg['docs']))]
@@ -276,4 +301,5 @@ def normalise(cfg):
     for u in cfg['users']:
         if u['kind'] == 'entity':
             u['person'] = u.get('person', 0) % np_
+    cfg.setdefault('epochs', [])
     return cfg
